@@ -1,2 +1,5 @@
 import TransportVerif.Props.C05
-#print axioms TV.Props.C05.placeholder
+#print axioms TV.Props.C05.judged05
+#print axioms TV.Props.C05.check_is_pure
+#print axioms TV.Props.C05.check_changes_no_later_answer
+#print axioms TV.Props.C05.refused_is_pure
